@@ -11,6 +11,12 @@ CHECKS = {
  "C02": dict(cat="fault_enumeration", tech="deterministic simulation with a Byzantine prover (single-cell and public-input faults), differential oracle against the constraint checker", ref="DESIGN.md 4/C02",
    text="The pipeline of C01 with a Byzantine prover: per generated circuit the key is generated once and a list of plans is delivered - no edit, one edited advice cell (sites walked in thorough mode, sampled in quick), one edited public input - to the real prover+verifier and to MockProver; the two verdicts must coincide and every constraint class must be seen rejected by the real verifier.",
    note="Single-cell, non-propagated edits only; the generated family stands for 'all circuits'; a prover that errors or panics on a bad assignment counts as rejection."),
+ "C04": dict(cat="exploration", tech="deterministic simulation with a Byzantine prover (faults injected at advice assignment with honest continuation, then bounded local repair of failing gate rows) over an operation registry with a configuration swarm; big-integer reference model", ref="DESIGN.md 3.2, 4/C04",
+   text="Every native-field operation of the instruction traits reachable through the standard library (arithmetic, assertions, zero/equality tests, boolean logic, bitwise, bit/byte/chunk (de)composition, canonicity, sign, range checks, comparison, division, select/swap, conversions) runs on boundary-class inputs under a drawn pow2range configuration: the honest run must be satisfiable with the reference result iff the inputs are in the documented domain, and no Byzantine execution (1..3 faulted assignments, continuation from the faulty value, up to 3 re-solved hint cells) may be accepted with public inputs/outputs that contradict the definition.",
+   note="MockProver is the constraint model (cross-checked by C02); sampling of fault sites in quick mode, every assignment ordinal of every 4th case in thorough mode; comparison instructions other than lower_than, vectors and maps are not reachable through ZkStdLib and are not yet covered."),
+ "C09": dict(cat="exploration", tech="deterministic simulation: invariant monitor on a structure-recording Assignment back end (unknown vs concrete vs Byzantine witnesses), sampled real keygen/prove/verify", ref="DESIGN.md 4/C09",
+   text="Each operation circuit of the registry is synthesised with unknown witnesses, with the concrete boundary-class witness and under Byzantine value edits; fixed cells, selectors, the copy-constraint partition, table fills, advice positions and region count must coincide, and for a sample the verifying key made without a witness must verify a real proof made from the witness.",
+   note="Covers the operation circuits present in the registry (native family at this commit, extended as the registry grows); the proof pipeline circuits of C01 have witness-independent structure by construction of the generator."),
  "C12": dict(cat="exploration", tech="deterministic simulation with the scheduler as the subject (PRNG-chosen pool size and task order per run), naive-definition oracle", ref="DESIGN.md 4/C12",
    text="Every MSM, FFT and domain-algebra entry point is executed under a drawn pool size (1..64, including pools larger than the input) and task order and compared with its naive definition: all MSM lengths 0..70 for all five MSM entry points, eval_polynomial and parallelize at all lengths 0..64, then sampled sizes up to 2^12 crossing the window switches (4, 32, e^9), FFT sizes 2^0..2^12 over scalars and 2^0..2^6 over G1, domains k=1..10 with quotient degrees 1..8, rotations -3..3, l_i ranges with negative and beyond-n indices.",
    note="Naive definitions use the library's own field and single-point group operations (C10/C11 out of scope); blst's internal pool is disabled, its real single-threaded Pippenger runs; task-order permutation exposes arrival-order dependence, not sub-task data races (there is no shared mutable state in these sections)."),
